@@ -59,6 +59,10 @@ LEVEL.update({
  "C14":("a lockset-style sufficient condition decided on every explored path of five reader/transform harnesses: after validation the declaration objects (EDI, csv2, fixedlength2 declarations, transform declaration trees) are frozen, and any store or map update into an object reachable from them while reading or transforming is a violation — no shared writes means no data race on schema state and schedule-independent results, given the thread-safety of sync.Pool/atomic/LRU",
         "interleavings themselves are not explored (no thread or memory model); racing acquisitions of the ID counter and pool internals are outside"),
 })
+LEVEL.update({
+ "C15":("two-run non-interference over hidden state decided inside single symbolic paths: the same transform before and after unrelated activity (pool contents, ID counter advance, all map-iteration permutations) yields byte-identical outputs and checksums; checksum injectivity on the record shapes readers produce, with the XML attribute/mixed-content collision recorded as finding F13",
+        "MD5/UUID trusted; separate processes subsumed by arbitrary process state"),
+})
 REASON_NOT_YET="check under construction in this session (see DESIGN.md §6); not claimed yet"
 m={
  "version":1,
